@@ -243,6 +243,8 @@ class MemStreamTransport(AsyncStreamTransport):
         self.aclose_entered += 1
         self.closing = True
         self.calls.append(("aclose",))
+        if self.closed:
+            return  # like a real socket: closing an already closed transport is immediate
         try:
             for item in list(self.aclose_script):
                 if item[0] == "sleep":
@@ -295,6 +297,7 @@ class MemDatagramTransport(AsyncDatagramTransport):
         self._waiters: list[asyncio.Future] = []
         self.send_yield = 0
         self.aclose_entered = 0
+        self.aclose_script: list = []
 
     def feed(self, datagram: bytes) -> None:
         self.inbox.append(datagram)
@@ -326,7 +329,19 @@ class MemDatagramTransport(AsyncDatagramTransport):
     async def aclose(self) -> None:
         self.aclose_entered += 1
         self.closing = True
-        self.closed = True
+        if self.closed:
+            return
+        try:
+            for item in list(self.aclose_script):
+                if item[0] == "sleep":
+                    await asyncio.sleep(item[1])
+                elif item[0] == "yield":
+                    for _ in range(item[1]):
+                        await asyncio.sleep(0)
+                elif item[0] == "raise":
+                    raise item[1]
+        finally:
+            self.closed = True
 
     def is_closing(self) -> bool:
         return self.closing
